@@ -261,6 +261,8 @@ def run(ctx):
 
     # ---------------------------------------------------------------- scenarios
     def sc_pickle(c, rng, sparse_):
+        if sparse_ and rng.random() < 0.12:
+            return sc_tall_sparse(c, rng)
         if sparse_:
             A, _ = rsparse(rng)
         else:
@@ -293,7 +295,37 @@ def run(ctx):
         f.seek(0)
         require_same(c, key + ":dump-load", "pickle.dump/load", A, pickle.load(f))
 
+    def sc_tall_sparse(c, rng):
+        """sparse dimensions are Py_ssize_t: a matrix with 2^31 .. 2^40 rows and a handful of entries is a valid, cheap object"""
+        tc = rng.choice("dz")
+        m = rng.choice([2**31 - 1, 2**31 + 5, 2**32 + 4, 2**33, 2**40])
+        n = rng.randint(1, 3)
+        k = rng.randint(0, 4)
+        trip = {}
+        for _ in range(k):
+            trip[(rng.choice([0, 3, 17, m - 1, m // 2, rng.randrange(m)]), rng.randrange(n))] = rval(rng, tc, 0.2)
+        keys = sorted(trip)
+        tall_cols = rng.random() < 0.3
+        size = (n, m) if tall_cols and not keys else (m, n)       # many columns only without entries (colptr has n+1 words)
+        if size[1] > 2**20:
+            size = (m, n)
+        A = spmatrix([trip[t] for t in keys], [t[0] for t in keys], [t[1] for t in keys], size, tc)
+        how = rng.choice(["pickle", "pickle", "copy", "deepcopy"])
+        proto = rng.randrange(6)
+        ctx.count("c20.tall-sparse." + how)
+        c.cls("tall-sparse", how, tc, "2^%d" % (m.bit_length() - 1), len(keys))
+        c.desc.update({"what": "tall sparse " + how, "size": size, "nnz": len(keys), "protocol": proto})
+        try:
+            B = pickle.loads(pickle.dumps(A, proto)) if how == "pickle" else copy.copy(A) if how == "copy" else copy.deepcopy(A)
+        except Exception as e:      # noqa
+            c.check()
+            c.fail("%s:sparse:exception-beyond-int32-dimension" % how, "%s of a %s sparse matrix raised %s: %s" % (how, size, type(e).__name__, e))
+            return
+        require_same(c, "%s:sparse:beyond-int32-dimension" % how, how, A, B)
+
     def sc_copy(c, rng):
+        if rng.random() < 0.12:
+            return sc_tall_sparse(c, rng)
         A, _ = rsparse(rng) if rng.random() < 0.5 else rdense(rng)
         how = rng.choice(["copy", "deepcopy", "deepcopy-nested"])
         c.cls("copy", how, kind(A), A.typecode, shape_class(A.size))
@@ -900,7 +932,7 @@ def run(ctx):
         tc = A.typecode
         m, n = A.size
         how = rng.choice(["matrix(x)", "+x", "x[:]", "x[:, :]", "x[I]", "x[I, J]", "assignment", "inplace", "matrix(x, size)",
-                          "matrix(x, tc)", "x.T.T", "x * 1", "x + 0"])
+                          "matrix(x, tc)", "matrix(x,tc=tc)-no-size", "x.T.T", "x * 1", "x + 0"])
         c.cls("alias-dense", how, tc, shape_class(A.size))
         c.desc.update({"what": "aliasing", "how": how, "A": A})
         if how == "assignment":
@@ -967,6 +999,8 @@ def run(ctx):
             B = matrix(A, (n, m))
         elif how == "matrix(x, tc)":
             B = matrix(A, A.size, tc)
+        elif how == "matrix(x,tc=tc)-no-size":
+            B = matrix(A, tc=tc)
         elif how == "x.T.T":
             B = A.T.T
         elif how == "x * 1":
